@@ -761,7 +761,27 @@ def error_from(n, xs, zs):
     return e
 
 
+KIND_SECONDS: Dict[str, float] = {}
+KIND_BUDGET = {'xcube-long-side': 900.0, 'large-3d': 600.0, 'dense-large': 900.0}
+
+
 def check_case(case):
+    """wall-clock budget per family of deep cases (several times what the unchanged tree needs): a change that
+    makes every decode slow must not turn the search into hours; the cases skipped are counted"""
+    import time as _time
+    kind = case.get('kind')
+    if kind in KIND_BUDGET and KIND_SECONDS.get(kind, 0.0) > KIND_BUDGET[kind] and not case.get('_replay'):
+        KIND_SECONDS[kind + ':skipped'] = KIND_SECONDS.get(kind + ':skipped', 0) + 1
+        return None
+    t0 = _time.time()
+    try:
+        return _check_case(case)
+    finally:
+        if kind in KIND_BUDGET:
+            KIND_SECONDS[kind] = KIND_SECONDS.get(kind, 0.0) + _time.time() - t0
+
+
+def _check_case(case):
     """The property as stated, on the implementation, for one replayable case:
     {'decoder','code','size','code_deformation','direction','noise_deformation','p','kwargs','errors':[[xs],[zs]]...}
     All errors are decoded on one object (as a simulation does)."""
@@ -981,6 +1001,7 @@ def oracle(ctx, deep=False, broken=None):
         f['observed'] = check_case(f['input']) or f['observed']
     pairs = sorted({(c['decoder'], c['code']) for c in cases})
     return fails, {'evaluations': n_eval, 'decoder_code_pairs_constructed_and_run (tested)': len(pairs),
+                   'deep_family_seconds_and_cases_skipped_by_budget': {k: round(v, 1) for k, v in KIND_SECONDS.items()},
                    'incomplete decoders (interface only, tested)': ['SweepMatchDecoder', 'RotatedSweepMatchDecoder'],
                    'incomplete decoders (glue modelled, validity proved)': ['XCubeMatchingDecoder',
                                                                            'MemoryBeliefPropagationDecoder']}
